@@ -48,6 +48,10 @@ class Raised(Exception):
 PROGRAM_ERRORS = (KeyError, IndexError, ZeroDivisionError, ValueError, StopIteration)
 
 
+class Exit(Exception):
+    """sys.exit / exit called by the evaluated code: the evaluation ends normally."""
+
+
 # =====================================================================================================================
 # stubs
 
@@ -374,7 +378,7 @@ class EnumS(Stub):
 _DICT_METHODS = {"get", "setdefault", "items", "keys", "values", "pop", "copy", "update"}
 _LIST_METHODS = {"append", "extend", "index", "count", "copy", "insert", "pop", "sort", "reverse", "remove"}
 _SET_METHODS = {"add", "update", "discard", "remove", "union", "intersection", "difference", "issubset", "copy"}
-_MATH = {"dist": math.dist, "hypot": math.hypot, "fabs": math.fabs, "pow": math.pow, "floor": math.floor, "ceil": math.ceil}
+_MATH = {k: getattr(math, k) for k in ("dist", "hypot", "fabs", "pow", "floor", "ceil", "isclose", "sqrt", "isnan", "isinf", "isfinite", "fsum")}
 
 
 class F(Folder):
@@ -958,6 +962,8 @@ def check_find_clashes(chk, fi, radii: Dict[str, float], extra: float) -> Option
         return "recursion while evaluating"
     site = fi.where
     n_cl = len(ce.clusters)
+    # decided on the current code whatever its shape: evidence rules
+    chk.robust |= {"clash-definition", "distance-threshold", "option-filter", "occupancy-rule", "occupancy-sum", "pair-roles", "search-radius", "collection", "option-extra-filter"}
     # anything raised on a representative
     for opts, r in ce.raised[:2]:
         chk.violation("clash-definition", fi.site(r.node) if r.node is not None else site, f"find_clashes raises {r.what} on the representative structure with {optstr(opts)}", _K(fi, "raises"))
@@ -1154,6 +1160,9 @@ class MainEval:
                 cap.meta_args.append(f)
                 return MetaS()
 
+            def _exit(*a):
+                raise Exit()
+
             def out(*a, **k):
                 cap.lines.append(k.get("sep", " ").join(str(x) for x in a))
 
@@ -1168,10 +1177,14 @@ class MainEval:
                 print=out,
                 csv=ns(_folder_stub=True, writer=lambda f, *a, **k: WriterS(cap)),
                 os=ns(_folder_stub=True, path=ns(_folder_stub=True, splitext=os.path.splitext, basename=os.path.basename, dirname=os.path.dirname, join=os.path.join)),
-                sys=ns(_folder_stub=True, exit=lambda *a: (_ for _ in ()).throw(Raised("sys.exit")), argv=["clashfinder"]),
+                sys=ns(_folder_stub=True, exit=_exit, argv=["clashfinder"]),
+                exit=_exit,
             )
             ev = Ev(repo, M, env)
-            ev.run(mn.node.body)
+            try:
+                ev.run(mn.node.body)
+            except Exit:
+                pass
             self.env = ev.env
         finally:
             SetS.reverse = False
@@ -1198,11 +1211,17 @@ def check_main(chk, mn) -> Optional[str]:
     except Unknown as ex:
         return str(ex)
     except Raised as ex:
-        return f"main raises {ex.what} on the representative clash list"
+        # KeyError / IndexError / ... of an interpreted dict or list operation, or an explicit raise: the program's own behaviour
+        chk.robust |= {"report-clashes"}
+        chk.violation("report-clashes", mn.site(ex.node) if ex.node is not None else mn.where, f"main raises {ex.what} on the representative clash list (6 clashes, residue pairs in and against their sort order): no complete report / CSV is produced", _K(mn, "raises"))
+        for rule in ("report-grouping", "report-maxima", "report-loops"):
+            chk.ok(rule, mn.where, "not evaluated: main raises on the representative clash list (reported by rule `report-clashes`)")
+        return None
     except RecursionError:
         return "recursion while evaluating"
     site = mn.where
     cap = runs[False].cap
+    chk.robust |= {"report-clashes", "report-grouping", "report-maxima", "report-loops"}
 
     def parse_report(lines):
         """[(chain heading, [(residue heading, [atom line])])] with heading = (tokens, number)"""
